@@ -1436,3 +1436,123 @@ Proof.
     split; [auto | split; [auto | split; [auto|]]].
     unfold update_step. eapply RnG_ext; [exact R3|]. intros k _. apply gapply_app.
 Qed.
+
+(* ---------- SaveRaftState with several updates (distinct replicas) ---------- *)
+
+Definition wb_in_nodes (w : wb) (ns : list nid) : Prop := forall o, In o w -> In (key_node (wkey o)) ns.
+
+Lemma wb_last_not_node : forall w ns k, wb_in_nodes w ns -> ~ In (key_node k) ns -> wb_last w k = None.
+Proof.
+  intros w ns k H Hk. apply wb_last_none. intros o HI X. apply Hk. rewrite <- X. now apply H.
+Qed.
+
+Lemma nodes_distinct_cons : forall n ns, nodes_distinct (n :: ns) = true -> ~ In n ns /\ nodes_distinct ns = true.
+Proof.
+  intros n ns H. cbn [nodes_distinct] in H. apply andb_true_iff in H. destruct H as [H1 H2].
+  split; auto. intros HI. apply negb_true_iff in H1. apply not_true_iff_false in H1. apply H1.
+  apply existsb_exists. exists n. split; auto. apply nid_eqb_refl.
+Qed.
+
+Lemma save_step_other : forall us s n, ~ In n (map u_node us) -> save_step s us n = s n.
+Proof.
+  induction us as [|u us IH]; intros s n H; [reflexivity|].
+  cbn [map In] in H. unfold save_step in *. cbn [fold_left]. rewrite IH by tauto.
+  apply supd_other. intros X. apply H. left. now subst.
+Qed.
+
+Lemma nid_dec : forall a b : nid, {a = b} + {a <> b}.
+Proof. intros a b. destruct (nid_eqb a b) eqn:E; [left; now apply nid_eqb_eq | right; intros ->; rewrite nid_eqb_refl in E; discriminate]. Qed.
+
+Lemma save_list : forall m, sorted m -> WT m -> forall us c s,
+  nodes_distinct (map u_node us) = true ->
+  (forall n, In n (map u_node us) -> RnG (kv_get m) (c n) (s n) n) ->
+  forallb (fun u => update_wf (s (u_node u)) u) us = true ->
+  exists c1 Wh, save_heads m c us = Some (c1, Wh) /\
+    (forall n, ~ In n (map u_node us) -> c1 n = c n) /\
+    wb_in_nodes Wh (map u_node us) /\ wb_wt Wh /\
+    forall ct, (forall n, In n (map u_node us) -> ct n = c1 n) ->
+      let (c2, Wt) := save_tails plain_record ct us in
+      (forall n, ~ In n (map u_node us) -> c2 n = ct n) /\
+      wb_in_nodes Wt (map u_node us) /\ wb_wt Wt /\
+      forall n, In n (map u_node us) ->
+        RnG (gapply (Wh ++ Wt) (kv_get m)) (c2 n) (save_step s us n) n.
+Proof.
+  intros m HS HW. induction us as [|u us IH]; intros c s HD HR Hwf.
+  - exists c, []. split; [reflexivity|]. split; [auto|]. split; [intros o []|]. split; [intros k v []|].
+    intros ct _. cbn [save_tails]. split; [auto|]. split; [intros o []|]. split; [intros k v []|]. intros n [].
+  - cbn [map] in HD, HR. destruct (nodes_distinct_cons _ _ HD) as [Hnin HD'].
+    cbn [forallb] in Hwf. apply andb_true_iff in Hwf. destruct Hwf as [Wu Wus].
+    set (n0 := u_node u) in *.
+    destruct (save_node m c (s n0) n0 u HS HW (HR n0 (or_introl eq_refl)) eq_refl Wu)
+      as (c1a & wh & EH & O1 & Kh & Th & Tail).
+    set (s' := supd s n0 (update_step (s n0) u)).
+    destruct (IH c1a s' HD') as (c1 & Whr & EHr & Or & Khr & Thr & Tailr).
+    { intros n HI. assert (n <> n0) by (intros ->; contradiction).
+      rewrite O1 by auto. unfold s'. rewrite supd_other by auto. apply HR. now right. }
+    { rewrite forallb_forall in *. intros x HI. unfold s'. rewrite supd_other; auto.
+      intros X. apply Hnin. rewrite <- X. now apply in_map. }
+    exists c1, (wh ++ Whr). cbn [save_heads]. rewrite EH, EHr. split; [reflexivity|].
+    split; [|split; [|split]].
+    + intros n Hn. cbn [map In] in Hn. rewrite Or by tauto. apply O1. intros ->. apply Hn. now left.
+    + intros o HI. apply in_app_or in HI. cbn [map]. destruct HI as [HI|HI].
+      * left. symmetry. now apply Kh.
+      * right. now apply Khr.
+    + now apply wb_wt_app.
+    + intros ct Hct. cbn [save_tails].
+      assert (Hct0 : ct n0 = c1a n0).
+      { rewrite Hct by (cbn [map]; now left). now apply Or. }
+      specialize (Tail ct Hct0). destruct (save_tail plain_record ct u) as [cta wt_].
+      destruct Tail as (Ot & Kt & Tt & Rt).
+      specialize (Tailr cta). destruct (save_tails plain_record cta us) as [c2 Wtr].
+      destruct Tailr as (Otr & Ktr & Ttr & Rtr).
+      { intros n HI. assert (n <> n0) by (intros ->; contradiction).
+        rewrite Ot by auto. apply Hct. cbn [map]. now right. }
+      split; [|split; [|split]].
+      * intros n Hn. cbn [map In] in Hn. rewrite Otr by tauto. apply Ot. intros ->. apply Hn. now left.
+      * intros o HI. apply in_app_or in HI. cbn [map]. destruct HI as [HI|HI].
+        -- left. symmetry. now apply Kt.
+        -- right. now apply Ktr.
+      * now apply wb_wt_app.
+      * intros n Hn. cbn [map In] in Hn. destruct (nid_dec n n0) as [->|Hne].
+        -- (* the first update's replica *)
+           rewrite Otr by auto.
+           assert (save_step s (u :: us) n0 = update_step (s n0) u) as ->.
+           { change (save_step s (u :: us) n0) with (save_step s' us n0).
+             rewrite save_step_other by auto. unfold s'. apply supd_same. }
+           eapply RnG_ext; [exact Rt|]. intros k Hk. unfold gapply.
+           rewrite !wb_last_app.
+           rewrite (wb_last_not_node Wtr _ k Ktr) by (rewrite Hk; auto).
+           rewrite (wb_last_not_node Whr _ k Khr) by (rewrite Hk; auto).
+           reflexivity.
+        -- destruct Hn as [Hn|Hn]; [exfalso; apply Hne; symmetry; exact Hn|].
+           assert (save_step s (u :: us) n = save_step s' us n) as -> by reflexivity.
+           eapply RnG_ext; [exact (Rtr n Hn)|]. intros k Hk. unfold gapply.
+           rewrite !wb_last_app.
+           assert (wb_last wt_ k = None) as ->.
+           { apply wb_last_none. intros o HI X. apply Hne. rewrite <- Hk, <- X. now apply Kt. }
+           assert (wb_last wh k = None) as ->.
+           { apply wb_last_none. intros o HI X. apply Hne. rewrite <- Hk, <- X. now apply Kh. }
+           destruct (wb_last Wtr k); destruct (wb_last Whr k); reflexivity.
+Qed.
+
+Lemma save_raft_state_R : forall d s us, R d s -> spec_wf_op s (OSave us) = true ->
+  exists d', plain_step d (OSave us) = Some d' /\ R d' (spec_step s (OSave us)).
+Proof.
+  intros d s us (HS & HW & HR) Hwf. cbn [spec_wf_op] in Hwf. apply andb_true_iff in Hwf.
+  destruct Hwf as [HD Hwf].
+  destruct (save_list (p_kv d) HS HW us (p_cache d) s HD) as (c1 & Wh & EH & O1 & Kh & Th & Tail); auto.
+  { intros n _. apply Rn_G. apply HR. }
+  specialize (Tail c1 (fun n _ => eq_refl)).
+  cbn [plain_step]. unfold p_save_raft_state, save_wb. rewrite EH.
+  destruct (save_tails plain_record c1 us) as [c2 Wt]. destruct Tail as (O2 & Kt & Tt & RT).
+  eexists. split; [reflexivity|]. cbn [spec_step].
+  split; [now apply sorted_commit | split].
+  - apply WT_commit; auto. now apply wb_wt_app.
+  - intros n. cbn [p_kv p_cache]. destruct (in_dec nid_dec n (map u_node us)) as [HI|HI].
+    + apply Rn_G. eapply RnG_ext; [exact (RT n HI)|]. intros k _. now apply get_commit_g.
+    + rewrite O2, O1 by auto. rewrite save_step_other by auto.
+      eapply Rn_frame; [apply HR|]. intros k Hk. rewrite get_commit by auto.
+      rewrite wb_last_app.
+      rewrite (wb_last_not_node Wt _ k Kt) by (rewrite Hk; auto).
+      rewrite (wb_last_not_node Wh _ k Kh) by (rewrite Hk; auto). reflexivity.
+Qed.
